@@ -98,6 +98,8 @@ def run_case(c):
         # real-valued tensors (float dtype) against possibly complex Hamiltonians
         for _i in range(len(psi.A)):
             psi.A[_i] = psi.A[_i].real.copy()
+    if c['seed'] % 7 == 2:
+        h.integer_tensors(psi)          # integer dtype: the algorithms have to promote the tensors themselves
     v = oracle.mps_dense(psi.A)
     n_in = float(np.linalg.norm(v))
     if n_in < 1e-10:
@@ -109,7 +111,11 @@ def run_case(c):
         D0 = h.bond_dims(psi)
         qfirst, qlast = psi.qD[0].copy(), psi.qD[-1].copy()
         try:
-            if integ == 'single':
+            if c['seed'] % 5 == 1:
+                # positional form of the documented signatures (H, psi, dt, numsteps, numiter_lanczos[, tol_split])
+                nrm = ptn.integrate_local_singlesite(H, psi, dt, call['steps'], call['numiter']) if integ == 'single' else \
+                    ptn.integrate_local_twosite(H, psi, dt, call['steps'], call['numiter'], 0)
+            elif integ == 'single':
                 nrm = ptn.integrate_local_singlesite(H, psi, dt, call['steps'], numiter_lanczos=call['numiter'])
             else:
                 nrm = ptn.integrate_local_twosite(H, psi, dt, call['steps'], numiter_lanczos=call['numiter'], tol_split=0)
